@@ -3,7 +3,7 @@ import os, re, shutil, json, subprocess, struct
 import vcommon as V
 
 NAME = "out.colvars.state"
-TRACE = "trace=access,rename,openat,write,writev,close"
+TRACE = "trace=access,rename,openat,write,writev,close,unlink"
 SIG_SINGLE = "statefile.single-crash-no-complete-state"
 SIG_DOUBLE = "statefile.crash-restart-crash-no-complete-state"
 SIG_IGNERR = "statefile.ignored-io-error-then-crash-no-complete-state"
@@ -36,9 +36,36 @@ harmonic {
 """
 
 
+# a second configuration for the damaged-state search: biases whose state holds grids (histogram; metadynamics with grids)
+CONFIG_GRID = """colvar {
+  name d
+  lowerBoundary 0.0
+  upperBoundary 4.0
+  width 1.0
+  distanceZ {
+    main { atomNumbers 1 }
+    ref { dummyAtom (0,0,0) }
+    axis (0,0,1)
+  }
+}
+histogram {
+  name hi
+  colvars d
+}
+metadynamics {
+  name m
+  colvars d
+  hillWeight 0.1
+  newHillFrequency 1
+  hillWidth 1.0
+}
+"""
+CONFIGS = {"base": CONFIG, "grid": CONFIG_GRID}
+
+
 def scenario(sess, name=NAME, distinct=False):
     """sess = {"first": step number to start from, "pre": steps before the first save, "saves": ["text"|"binary", ...]}"""
-    L = ["unbuffered", "natoms 2", "new", "config EOF"] + CONFIG.strip("\n").split("\n") + ["EOF",
+    L = ["unbuffered", "natoms 2", "new", "config EOF"] + CONFIGS[sess.get("config", "base")].strip("\n").split("\n") + ["EOF",
          "show cv 0 atomf 0 energy 0 bias 0", "setstep %d" % sess["first"], "pos 1 0 0 1.25"]
     L += ["step"] * sess["pre"]
     for i, mode in enumerate(sess["saves"]):
@@ -47,31 +74,40 @@ def scenario(sess, name=NAME, distinct=False):
     return "\n".join(L) + "\n"
 
 
-def load_scenario(prefix):
-    L = ["natoms 2", "new", "config EOF"] + CONFIG.strip("\n").split("\n") + ["EOF", "load %s" % prefix]
+def load_scenario(prefix, config="base"):
+    L = ["natoms 2", "new", "config EOF"] + CONFIGS[config].strip("\n").split("\n") + ["EOF", "load %s" % prefix]
     return "\n".join(L) + "\n"
 
 
 def parse_trace(path, name=NAME):
     """-> list of relevant syscalls: dict(op, sys, occ, n, ret) in order; occ = 1-based occurrence of that syscall
-    name among all traced calls of the process"""
+    name among all traced calls of the process.  ops: U unlink(<name>.tmp), B access(<name>.tmp), O open for writing
+    (<name>.tmp; <name> on a tree that writes in place), W write to that fd, C its close, A access(<name>),
+    R rename(<name>, <name>.old), T rename(<name>.tmp, <name>)"""
     occ = {}
     fd = None
     rel = []
+    q, qt = '"%s"' % name, '"%s.tmp"' % name
     for line in open(path, errors="replace"):
         m = re.match(r"(?:\d+\s+)?(\w+)\((.*)", line)
         if not m:
             continue
         sysname, rest = m.group(1), m.group(2)
-        if sysname not in ("access", "rename", "openat", "write", "writev", "close"):
+        if sysname not in ("access", "rename", "openat", "write", "writev", "close", "unlink"):
             continue
         occ[sysname] = occ.get(sysname, 0) + 1
         ret = line.rsplit("=", 1)[-1].strip() if "=" in line else "?"
-        if sysname == "access" and ('"%s"' % name) in rest:
+        if sysname == "unlink" and qt in rest:
+            rel.append({"op": "U", "sys": sysname, "occ": occ[sysname], "ret": ret})
+        elif sysname == "access" and qt in rest:
+            rel.append({"op": "B", "sys": sysname, "occ": occ[sysname], "ret": ret})
+        elif sysname == "access" and q in rest:
             rel.append({"op": "A", "sys": sysname, "occ": occ[sysname], "ret": ret})
-        elif sysname == "rename" and ('"%s"' % name) in rest:
+        elif sysname == "rename" and rest.startswith(qt):
+            rel.append({"op": "T", "sys": sysname, "occ": occ[sysname], "ret": ret})
+        elif sysname == "rename" and rest.startswith(q):
             rel.append({"op": "R", "sys": sysname, "occ": occ[sysname], "ret": ret})
-        elif sysname == "openat" and ('"%s"' % name) in rest and "O_WRONLY" in rest:
+        elif sysname == "openat" and (q in rest or qt in rest) and "O_WRONLY" in rest:
             rel.append({"op": "O", "sys": sysname, "occ": occ[sysname], "ret": ret})
             mm = re.match(r"(\d+)", ret)
             fd = mm.group(1) if mm and "INJECTED" not in ret else None
@@ -90,15 +126,20 @@ def parse_trace(path, name=NAME):
     return rel
 
 
+def save_start(ops):
+    """the op that begins a save: U on a tree with the temporary-file protocol, A on one that writes in place"""
+    return "U" if any(o.startswith("U") for o in ops) else "A"
+
+
 def trace_str(rel):
     return ",".join(r["op"] + (str(r["n"]) if r["op"] == "W" else "") for r in rel)
 
 
-ERRNO = {"A": "EACCES", "R": "EACCES", "O": "EACCES", "W": "ENOSPC", "C": "EIO"}
+ERRNO = {"A": "EACCES", "R": "EACCES", "O": "EACCES", "W": "ENOSPC", "C": "EIO", "U": "EACCES", "B": "EACCES", "T": "EACCES"}
 
 
 class Dir:
-    """a scratch directory holding <NAME> and <NAME>.old"""
+    """a scratch directory holding <NAME>, <NAME>.old and <NAME>.tmp"""
     def __init__(self, path):
         self.path = path
         if os.path.exists(path):
@@ -107,13 +148,13 @@ class Dir:
 
     def files(self):
         out = {}
-        for k, n in (("cur", NAME), ("old", NAME + ".old")):
+        for k, n in (("cur", NAME), ("old", NAME + ".old"), ("tmp", NAME + ".tmp")):
             p = os.path.join(self.path, n)
             out[k] = open(p, "rb").read() if os.path.exists(p) else None
         return out
 
     def put(self, files):
-        for k, n in (("cur", NAME), ("old", NAME + ".old")):
+        for k, n in (("cur", NAME), ("old", NAME + ".old"), ("tmp", NAME + ".tmp")):
             p = os.path.join(self.path, n)
             if os.path.exists(p):
                 os.remove(p)
@@ -180,8 +221,9 @@ def classify_errors(sessions, impl_desc):
             if x != "e" or i >= len(tr):
                 continue
             op = tr[i][0]
-            si = sum(1 for t in tr[:i + 1] if t.startswith("A")) - 1
-            goes_on = op in "AR" and i + 1 < len(tr) and not tr[i + 1].startswith("A")
+            st = save_start(tr)
+            si = sum(1 for t in tr[:i + 1] if t.startswith(st)) - 1
+            goes_on = op in "UBAR" and i + 1 < len(tr) and not tr[i + 1].startswith(st)
             said_ok = 0 <= si < len(results) and results[si] == "ok"
             (ignored if (goes_on or said_ok) else reported).append(op)
     return ignored, reported
@@ -215,8 +257,9 @@ def reference_(vsim, d, sess):
     # split the relevant syscalls per save: writev = written while write_state() runs, write = flushed at close
     saves = []
     cur = None
+    st = save_start([r["op"] for r in rel])
     for r in rel:
-        if r["op"] == "A":
+        if r["op"] == st:
             cur = {"chunks": [], "tail": 0}
             saves.append(cur)
         elif r["op"] == "W" and cur is not None:
@@ -235,7 +278,7 @@ def version_of(sess, i):
 
 def model_line(start_model, sessions):
     """CR line for the model driver: sessions = list of (sess, chunking, plan)"""
-    parts = ["CR", "f:%s:%s" % (start_model.get("cur", "-"), start_model.get("old", "-"))]
+    parts = ["CR", "f:%s:%s:%s" % (start_model.get("cur", "-"), start_model.get("old", "-"), start_model.get("tmp", "-"))]
     for k, (sess, chunking, plan) in enumerate(sessions):
         if k:
             parts.append("/")
@@ -248,7 +291,7 @@ def model_line(start_model, sessions):
 def observe(files, refs_by_ver):
     """describe the directory against the reference bytes: 'v.b.t' like the model, or '?' when no version matches"""
     out = {}
-    for k in ("cur", "old"):
+    for k in ("cur", "old", "tmp"):
         data = files[k]
         if data is None:
             out[k] = "-"
@@ -261,7 +304,7 @@ def observe(files, refs_by_ver):
 def match_model(obs, mfs, refs_by_ver):
     """mfs = 'cur:v.b.t old:-' from the model"""
     m = dict(x.split(":") for x in mfs.split())
-    for k in ("cur", "old"):
+    for k in ("cur", "old", "tmp"):
         if m[k] == "-" or obs[k] == "-":
             if m[k] != obs[k]:
                 return False
@@ -283,9 +326,9 @@ def complete_versions(files, refs_by_ver):
     return out
 
 
-def try_load_(vsim, d, fname):
+def try_load_(vsim, d, fname, config="base"):
     scn = os.path.join(d.path, "l.scn")
-    open(scn, "w").write(load_scenario(fname))
+    open(scn, "w").write(load_scenario(fname, config))
     rc, out, err = V.sh(["timeout", "-s", "KILL", "20", vsim, scn], cwd=d.path, timeout=60,
                         env={"ASAN_OPTIONS": "abort_on_error=1:detect_leaks=0", "UBSAN_OPTIONS": "halt_on_error=1:abort_on_error=1"})
     os.remove(scn)
@@ -349,9 +392,10 @@ def run_case(run, model, vsim, d, case, quick):
         rcm, mout, em = V.run_lines(model, [model_line(cur_model, [(sess, chunkings[k], plan)])])
         mp = (mout[0] if mout else "").strip()
         mparts.append(mp)
-        mm = re.match(r"results=(\S*) trace=(\S*) (cur:\S+ old:\S+) safe=(\w+) reg=(\S+)", mp)
+        mm = re.match(r"results=(\S*) trace=(\S*) (cur:\S+ old:\S+ tmp:\S+) safe=(\w+) reg=(\S+)", mp)
         desc = {"trace": trace_str(rel), "results": res, "cur": obs["cur"] if obs["cur"] == "-" else list(obs["cur"]),
-                "old": obs["old"] if obs["old"] == "-" else list(obs["old"]), "rc": rc, "partial_results": list(LAST_PARTIAL[0])}
+                "old": obs["old"] if obs["old"] == "-" else list(obs["old"]),
+                "tmp": obs["tmp"] if obs["tmp"] == "-" else list(obs["tmp"]), "rc": rc, "partial_results": list(LAST_PARTIAL[0])}
         impl_desc.append(desc)
         # oracle on the implementation alone: a save that says ok has left the complete new state under the name
         if res and res[-1] == "ok":
@@ -375,10 +419,10 @@ def run_case(run, model, vsim, d, case, quick):
             if ex:
                 itrace = mm.group(2)
                 if ex.group(1):
-                    mcur = dict(x.split(":") for x in mfs.split())["cur"]
-                    if mcur != "-":
-                        v_, b_, t_ = map(int, mcur.split("."))
-                        mfs = mfs.replace("cur:" + mcur, "cur:%d.%d.%d" % (v_, b_ + int(ex.group(1)), t_))
+                    mtmp = dict(x.split(":") for x in mfs.split())["tmp"]
+                    if mtmp != "-":
+                        v_, b_, t_ = map(int, mtmp.split("."))
+                        mfs = mfs.replace("tmp:" + mtmp, "tmp:%d.%d.%d" % (v_, b_ + int(ex.group(1)), t_))
         cur_model = dict(x.split(":") for x in mfs.split())
         same = (itrace == mm.group(2)) and match_model(obs, mfs, refs_by_ver)
         if res is None:
@@ -427,6 +471,93 @@ def run_case(run, model, vsim, d, case, quick):
     return ok_all, impl_desc, mparts
 
 
+def run_fsize_cases(run, model, vsim, d, quick):
+    """real partial writes followed by real process death: RLIMIT_FSIZE = L bytes.  The write that crosses the limit
+    persists exactly the bytes up to L (short count), the next write of the remainder raises SIGXFSZ and the process
+    dies.  (strace cannot be used here -- its own output file would hit the limit -- so the syscall trace is not
+    compared: the files left, the SAVE lines and the property oracle are.)"""
+    import resource, signal as _sig
+    r = V.rng("C11fsize")
+    small = {"first": 0, "pre": 3, "saves": ["text", "text", "binary", "text"]}
+    large = {"first": 0, "pre": 150, "saves": ["text", "binary", "text"]}
+    ncase = 0
+    for label, sess in (("small", small), ("large", large)):
+        refs, chunking, rel = reference(vsim, d, sess)
+        sizes = [len(x) for x in refs]
+        refs_by_ver = {version_of(sess, i): rb for i, rb in enumerate(refs)}
+        ops = [x["op"] + (str(x["n"]) if x["op"] == "W" else "") for x in rel]
+        limits = set()
+        for i, sz in enumerate(sizes):
+            limits |= {1, sz - 1, sz // 2, max(1, sz - 8)}
+            for c in chunking[i]["chunks"]:
+                limits |= {c, c - 1, c + 1}
+        limits = sorted(l for l in limits if 0 < l < max(sizes))
+        if quick:
+            limits = sorted(r.sample(limits, min(len(limits), 7)))
+        for L in limits:
+            # the plan for the model: everything succeeds until the write that crosses L in the first save larger than L
+            plan, done, pos = [], False, 0
+            st = save_start(ops)
+            for o in ops:
+                if o.startswith(st):
+                    pos = 0
+                if o.startswith("W") and not done:
+                    nbytes = int(o[1:])
+                    if pos + nbytes > L:
+                        plan.append("k%d" % (L - pos))
+                        done = True
+                        break
+                    pos += nbytes
+                plan.append("o")
+            if not done:
+                continue
+            d.put({})
+            scn = os.path.join(d.path, "s.scn")
+            open(scn, "w").write(scenario(sess))
+
+            def limit():
+                resource.setrlimit(resource.RLIMIT_FSIZE, (L, L))
+                resource.setrlimit(resource.RLIMIT_CORE, (0, 0))
+            try:
+                pr = subprocess.run([vsim, scn], cwd=d.path, preexec_fn=limit, stdout=subprocess.PIPE, stderr=subprocess.PIPE, timeout=120)
+                rc, out = pr.returncode, pr.stdout.decode("latin1")
+            except subprocess.TimeoutExpired:
+                run.violation("statefile.hang-under-file-size-limit", "saving with RLIMIT_FSIZE=%d hangs" % L,
+                              {"kind": "fsize", "limit": L, "session": sess})
+                continue
+            os.remove(scn)
+            pres = ["ok" if l.strip() == "SAVE err=ok" else "err" for l in out.split("\n") if l.startswith("SAVE err=")]
+            files = d.files()
+            obs = observe(files, refs_by_ver)
+            rcm, mout, em = V.run_lines(model, [model_line({}, [(sess, chunking, plan)])])
+            mp = (mout[0] if mout else "").strip()
+            mm = re.match(r"results=(\S*) trace=(\S*) (cur:\S+ old:\S+ tmp:\S+) safe=(\w+) reg=(\S+)", mp)
+            ncase += 1
+            run.count("fsize:%s:%d" % (label, L), True)
+            run.dist("protocol:partial-write-death(RLIMIT_FSIZE)")
+            desc = {"limit": L, "rc": rc, "results": pres, "cur": obs["cur"] if obs["cur"] == "-" else list(obs["cur"]),
+                    "old": obs["old"] if obs["old"] == "-" else list(obs["old"]), "tmp": obs["tmp"] if obs["tmp"] == "-" else list(obs["tmp"])}
+            died = rc == -_sig.SIGXFSZ
+            if mm:
+                mres = [x for x in mm.group(1).split(",") if x]
+                same = died and match_model(obs, mm.group(3), refs_by_ver) and mres[:-1] == pres and mres[-1:] == ["dead"]
+                if not same:
+                    run.mismatch("protocol-tie", {"label": "%s:fsize=%d" % (label, L), "plan": plan}, desc, mp)
+            comp = complete_versions(files, refs_by_ver)
+            loadable = []
+            for k, nme in (("cur", NAME), ("old", NAME + ".old")):
+                if files[k] is not None:
+                    rcl, ld = try_load(vsim, d, nme, run, "fsize=%d" % L)
+                    if ld and ld[0] == "ok" and (k, ld[1]) in comp:
+                        loadable.append(k)
+            if "ok" in pres and not loadable:
+                run.violation("statefile.partial-write-death-no-complete-state",
+                              "a process limited to files of %d bytes dies (SIGXFSZ) inside the write of save %d after %d save(s) had completed; "
+                              "neither %s nor %s.old is complete and loadable: %s" % (L, len(pres) + 1, pres.count("ok"), NAME, NAME, json.dumps(desc)),
+                              {"kind": "fsize", "limit": L, "session": sess})
+    run.cov["correspondence"]["partial_write_death_cases"] = ncase
+
+
 def kill_plans(nsys):
     return [["o"] * k + ["k0"] for k in range(nsys)]
 
@@ -437,9 +568,14 @@ def run_crash(run, model, vsim, quick):
     small = {"first": 0, "pre": 3, "saves": ["text", "text", "binary", "text"]}
     large = {"first": 0, "pre": 150, "saves": ["text", "binary", "text"]}
     cases = []
-    # 1. one process, death before every file system call of every save (theorem C11_crash_consistent_one_process)
+    # 1. one process, death before every file system call of every save
     for label, sess in (("small", small), ("large", large)):
         refs, chunking, rel = reference(vsim, d, sess)
+        if any(len(x) == 0 for x in refs):
+            run.violation("statefile.save-does-not-leave-the-file", "a fault-free sequence of saves to distinct names leaves %d of %d state files "
+                          "missing or empty (trace of the same saves to one name: %s)" % (sum(1 for x in refs if not x), len(refs), trace_str(rel)),
+                          {"kind": "crash", "case": {"kind": "fault-free", "label": label + ":fault-free", "sessions": [(sess, [])]}})
+            return
         n = len(rel)
         run.sample({"fault_free_trace_" + label: trace_str(rel), "state_sizes": [len(x) for x in refs]})
         ks = list(range(n)) if (not quick or n <= 24) else sorted(r.sample(range(n), 24))
@@ -457,27 +593,40 @@ def run_crash(run, model, vsim, quick):
         cases.append({"kind": "single-error", "label": "large:err@%d" % k, "sessions": [(large, ["o"] * k + ["e"])]})
     for k in range(0, 9):
         cases.append({"kind": "single-error", "label": "small:err@%d" % k, "sessions": [(small, ["o"] * k + ["e"])]})
-    # 3. the _refuted witnesses of Properties_C11.v, replayed on the real code
+    # 3. the witnesses that refuted the in-place protocol (Example C11_example_former_witnesses), replayed on the real
+    # code.  Plans are positions in the syscall sequence, so each history is given twice: placed for the temporary-file
+    # protocol (U,B,O,W,C,A,[R,]T per small save) and placed for a tree that writes in place (A,[R,]O,W,C): on the other
+    # kind of tree the same plan is just one more fault plan that has to be survived.
     s12 = {"first": 0, "pre": 3, "saves": ["text", "text"]}
     s3 = {"first": 1000, "pre": 2, "saves": ["text"]}
-    cases.append({"kind": "witness", "label": "C11_crash_consistent_refuted:kill-in-save-2,restart,kill-after-rename",
-                  "sessions": [(s12, ["o"] * 7 + ["k0"]), (s3, ["o", "o", "k0"])]})
     s123 = {"first": 0, "pre": 3, "saves": ["text", "text", "text"]}
-    cases.append({"kind": "witness", "label": "C11_error_tolerant_continuing_refuted:ENOSPC-in-the-last-write-of-save-2,save-3-killed-after-its-rename",
+    cases.append({"kind": "witness", "label": "crash-restart-crash:kill-in-the-write-of-save-2,restart,kill-between-the-two-renames",
+                  "sessions": [(s12, ["o"] * 10 + ["k0"]), (s3, ["o"] * 7 + ["k0"])]})
+    cases.append({"kind": "witness", "label": "crash-restart-crash(in-place positions):kill-in-save-2,restart,kill-after-rename",
+                  "sessions": [(s12, ["o"] * 7 + ["k0"]), (s3, ["o", "o", "k0"])]})
+    cases.append({"kind": "witness", "label": "save-after-reported-error:ENOSPC-in-the-last-write-of-save-2,save-3-killed-between-its-renames",
+                  "sessions": [(s123, ["o"] * 10 + ["e"] + ["o"] * 8 + ["k0"])]})
+    cases.append({"kind": "witness", "label": "save-after-reported-error(in-place positions):ENOSPC-in-the-last-write-of-save-2,save-3-killed-after-its-rename",
                   "sessions": [(s123, ["o"] * 7 + ["e", "o", "o", "o", "k0"])]})
-    # the two former witnesses of ignored error returns (repaired by fix: commits; must stay safe)
-    cases.append({"kind": "witness", "label": "rename-error-in-save-2,kill-in-the-write-that-follows",
+    # the former witnesses of ignored error returns (repaired in round 1; must stay safe)
+    cases.append({"kind": "witness", "label": "rename-error-in-save-2,kill-three-calls-later",
                   "sessions": [(s123, ["o"] * 5 + ["e", "o", "o", "k0"])]})
-    # (on a tree where the failed rename is ignored the next two calls are the open and the write of the same save;
-    # on the repaired tree they are the access and the rename of save 3: two faults on rename, skipped as unrealisable)
     cases.append({"kind": "witness", "label": "rename-error-in-save-2,kill-two-calls-later",
                   "sessions": [(s123, ["o"] * 5 + ["e", "o", "k0"])]})
+    cases.append({"kind": "witness", "label": "backup-rename-error-in-save-2,kill-in-the-write-of-save-3",
+                  "sessions": [(s123, ["o"] * 13 + ["e", "o", "o", "o", "k0"])]})
     cases.append({"kind": "witness", "label": "ENOSPC-in-the-last-write-of-save-2,no-further-save,kill-free",
+                  "sessions": [(s12, ["o"] * 10 + ["e"])]})
+    cases.append({"kind": "witness", "label": "ENOSPC-in-the-last-write-of-save-2(in-place positions),no-further-save,kill-free",
                   "sessions": [(s12, ["o"] * 7 + ["e"])]})
+    # every error return and every kill position in the install phase of the second save (A, R, T)
+    for k in (12, 13, 14):
+        for f in ("e", "k0"):
+            cases.append({"kind": "install-fault", "label": "small:install:%s@%d" % (f, k), "sessions": [(s123, ["o"] * k + [f])]})
     # 4. random two-fault plans over two processes
-    for j in range(6 if quick else 80):
-        p1 = ["o"] * r.randint(4, 12) + [r.choice(["k0", "e"])]
-        p2 = ["o"] * r.randint(0, 5) + [r.choice(["k0", "e", "k0"])]
+    for j in range(8 if quick else 100):
+        p1 = ["o"] * r.randint(4, 22) + [r.choice(["k0", "e"])]
+        p2 = ["o"] * r.randint(0, 9) + [r.choice(["k0", "e", "k0"])]
         sa = {"first": 0, "pre": r.choice([2, 150]), "saves": [r.choice(["text", "binary"]) for _ in range(3)]}
         sb = {"first": 2000, "pre": 2, "saves": [r.choice(["text", "binary"]) for _ in range(2)]}
         cases.append({"kind": "random-two-fault", "label": "random%d" % j, "sessions": [(sa, p1), (sb, p2)]})
@@ -491,6 +640,7 @@ def run_crash(run, model, vsim, quick):
         if c["kind"] == "witness":
             run.sample({"witness": c["label"], "impl": impl_desc, "model": mparts})
     run.cov["correspondence"]["protocol_cases"] = len(cases)
+    run_fsize_cases(run, model, vsim, d, quick)
     load_exe = vsim
     if not quick:
         # thorough tier: the load search runs a build with AddressSanitizer + UBSan (-fno-sanitize-recover): an
@@ -501,6 +651,8 @@ def run_crash(run, model, vsim, quick):
         except Exception as ex:
             run.notes.append("asan build failed, load search used the plain build: %s" % str(ex)[-200:])
     run_damage(run, load_exe, d, quick, model)
+    if model is not None:
+        run_damage_grid(run, load_exe, d, quick, model)
 
 
 # ---------------------------------------------------------------------------------------------------
@@ -535,19 +687,86 @@ def top_level_blocks(text):
 KEYWORDS = {"configuration": 0, "colvar": 1, "name": 2, "hill": 3, "x": 4}
 
 
-def tx_line(text):
-    """the case line for the text-reader model (coq/C11/StateReadModel.v): the configured objects of CONFIG and the
-    white-space separated words of the (damaged) file; words are numbered, the reader's own keywords have fixed numbers"""
+def tx_line(text, config="base"):
+    """the case line for the text-reader model (coq/C11/StateReadModel.v): the configured objects of the configuration and
+    the white-space separated words of the (damaged) file; words are numbered, the reader's own keywords have fixed numbers"""
     ids = dict(KEYWORDS)
 
     def wid(w):
         if w not in ids:
             ids[w] = 100 + len(ids)
         return ids[w]
-    cfg = "cv:%d b:%d.%d.%d.0,%d.%d.%d.1" % (wid("d"), wid("restraint"), wid("harmonic"), wid("h"),
-                                               wid("metadynamics"), wid("metadynamics"), wid("m"))
+    if config == "base":
+        cfg = "cv:%d b:%d.%d.%d.0,%d.%d.%d.1" % (wid("d"), wid("restraint"), wid("harmonic"), wid("h"),
+                                                   wid("metadynamics"), wid("metadynamics"), wid("m"))
+    else:
+        # 4 bins: histogram = key "grid" + 4 numbers; metadynamics = two grids (key, grid_parameters block, 4 numbers), then hills
+        gp = wid("grid_parameters")
+        cfg = "cv:%d b:%d.%d.%d.0.k%d+w4,%d.%d.%d.1.k%d+b%d+w4+k%d+b%d+w4" % (
+            wid("d"), wid("histogram"), wid("histogram"), wid("hi"), wid("grid"),
+            wid("metadynamics"), wid("metadynamics"), wid("m"), wid("hills_energy"), gp, wid("hills_energy_gradients"), gp)
     toks = [w if w in ("{", "}") else str(wid(w)) for w in text.split()]
     return "TX %s t:%s" % (cfg, ",".join(toks) or "-")
+
+
+def tb_line(data):
+    """the case line for the binary-reader model (coq/C11/BinReadModel.v): the objects of CONFIG in the order of the
+    module's lists (variable d; harmonic h before metadynamics m) and the bytes of the (damaged) file"""
+    hx = lambda t: t.encode().hex()
+    return "TB n:1 b:%s.%s.0.1,%s.%s.1.1 d:%s" % (hx("restraint"), hx("harmonic"), hx("metadynamics"), hx("metadynamics"), data.hex())
+
+
+def run_damage_grid(run, vsim, d, quick, model):
+    """prefixes of a text state whose biases hold grids (histogram; metadynamics with grids): cut inside an object's
+    block must be an error (oracle), and the text-reader model with the grid layouts gives the same verdict (tie)"""
+    r = V.rng("C11damagegrid")
+    sess = {"first": 0, "pre": 6, "saves": ["text"], "config": "grid"}
+    refs, chunking, rel = reference(vsim, d, sess)
+    text = refs[0]
+    n = len(text)
+    p = os.path.join(d.path, "dmg.colvars.state")
+    blocks = top_level_blocks(text.decode("latin1"))
+    obj_blocks = [(a, b, kw) for a, b, kw in blocks if kw != "configuration"]
+    open(p, "wb").write(text)
+    rc, ld = try_load_(vsim, d, "dmg.colvars.state", "grid")
+    if rc != 0 or not ld or ld[0] != "ok":
+        run.violation("load.valid-state-rejected", "a freshly written text state with grids does not load (rc=%d, %s)" % (rc, ld),
+                      {"kind": "load", "format": "text", "config": "grid", "cut": n})
+        return
+    if quick:
+        offs = set(r.sample(range(n), min(n, 90)))
+        for a, b, kw in obj_blocks:
+            offs |= {a, a + 1, b - 1, b, b + 1, (a + b) // 2}
+        for m in re.finditer(rb"grid_parameters|hills_energy|\ngrid\n|\}\n [-0-9]", text):
+            offs |= {m.start(), m.start() + 3, m.end(), m.end() + 1, m.end() + 9}
+    else:
+        offs = set(range(n))
+    verdicts = []
+    for cut in sorted(o for o in offs if 0 <= o < n):
+        open(p, "wb").write(text[:cut])
+        rc, ld = try_load_(vsim, d, "dmg.colvars.state", "grid")
+        run.count("gridtext-prefix-%d" % cut, True)
+        run.dist("damage:text-prefix(grids)")
+        if rc >= 128 or rc == 124 or rc < 0 or ld is None:
+            run.violation("load.crash:text-prefix", "loading the first %d of %d bytes of a valid text state with grids kills or hangs the process (rc=%d)" % (cut, n, rc),
+                          {"kind": "load", "format": "text", "config": "grid", "cut": cut})
+            continue
+        verdicts.append((cut, "ok" if ld[0] == "ok" else "err"))
+        inside = [kw for a, b, kw in obj_blocks if a < cut <= b]
+        if inside and ld[0] == "ok":
+            run.violation("load.text-cut-inside-%s-block-accepted" % inside[0],
+                          "a text state with grids cut at byte %d, inside the %s block, loads without any error" % (cut, inside[0]),
+                          {"kind": "load", "format": "text", "config": "grid", "cut": cut})
+    lines = [tx_line(text[:cut].decode("latin1"), "grid") for cut, _ in verdicts]
+    rcm, mout, em = V.run_lines(model, lines, timeout=600)
+    ndis = 0
+    for (cut, verdict), mo in zip(verdicts, mout + ["<none>"] * (len(lines) - len(mout))):
+        if mo.strip() != verdict:
+            ndis += 1
+            run.mismatch("text-reader-tie", {"config": "grid", "cut": cut, "of": n, "tail": text[max(0, cut - 30):cut].decode("latin1")}, verdict, mo.strip())
+    run.cov["correspondence"]["damage_grid"] = {"text_prefixes": len(verdicts), "text_reader_model_disagreements": ndis}
+    if os.path.exists(p):
+        os.remove(p)
 
 
 def run_damage(run, vsim, d, quick, model=None):
@@ -577,6 +796,7 @@ def run_damage(run, vsim, d, quick, model=None):
     pat = struct.pack("<Q", 4) + b"hill"
     hill_starts = [m.start() for m in re.finditer(re.escape(pat), binary)]
     text_verdicts = []
+    binary_verdicts = []
     for nm, data in (("text", text), ("binary", binary)):
         n = len(data)
         if quick:
@@ -609,6 +829,8 @@ def run_damage(run, vsim, d, quick, model=None):
                                   "a text state cut at byte %d, inside the %s block, loads without any error (LOAD err=ok it=%d)" % (cut, inside[0], ld[1]),
                                   {"kind": "load", "format": nm, "cut": cut, "scenario": scenario(sess, distinct=True)})
             else:
+                if cut > 4:
+                    binary_verdicts.append((cut, "ok" if ld[0] == "ok" else "err"))
                 if ld[0] == "ok" and cut > 4:
                     stats["binary_prefix_accepted"] += 1
                     if cut in hill_starts:
@@ -632,7 +854,18 @@ def run_damage(run, vsim, d, quick, model=None):
                     run.mismatch("text-reader-tie", {"cut": cut, "of": n, "tail": data[max(0, cut - 30):cut].decode("latin1")}, verdict, mo.strip())
             stats["text_reader_model_cases"] = len(lines)
             stats["text_reader_model_disagreements"] = ndis
-        flips = [(r.randrange(n), r.randrange(8)) for j in range(60 if quick else 4000)]
+        if nm == "binary" and model is not None and binary_verdicts:
+            # tie of the binary-reader model (d): error / no error for every prefix explored (beyond the magic number)
+            lines = [tb_line(data[:cut]) for cut, _ in binary_verdicts]
+            rcm, mout, em = V.run_lines(model, lines, timeout=900)
+            ndis = 0
+            for (cut, verdict), mo in zip(binary_verdicts, mout + ["<none>"] * (len(lines) - len(mout))):
+                if mo.strip() != verdict:
+                    ndis += 1
+                    run.mismatch("binary-reader-tie", {"cut": cut, "of": n, "hill_starts": hill_starts[:3]}, verdict, mo.strip())
+            stats["binary_reader_model_cases"] = len(lines)
+            stats["binary_reader_model_disagreements"] = ndis
+        flips = [(r.randrange(n), r.randrange(8)) for j in range(60 if quick else 3000)]
         if nm == "text":
             # aimed: every byte of the configuration block (step, dt, version, units and the separators)
             a0 = data.find(b"{"); b0 = data.find(b"}")
@@ -663,6 +896,21 @@ def replay(rp, vsim, model):
         print("impl :", json.dumps(impl_desc))
         print("model:", mparts)
         print("files left in", d.path, {k: (len(v) if v is not None else None) for k, v in d.files().items()})
+    elif rp["kind"] == "fsize":
+        import resource
+        L, sess = rp["limit"], rp["session"]
+        scn = os.path.join(d.path, "s.scn")
+        open(scn, "w").write(scenario(sess))
+
+        def limit():
+            resource.setrlimit(resource.RLIMIT_FSIZE, (L, L))
+            resource.setrlimit(resource.RLIMIT_CORE, (0, 0))
+        pr = subprocess.run([vsim, scn], cwd=d.path, preexec_fn=limit, stdout=subprocess.PIPE, stderr=subprocess.PIPE, timeout=120)
+        print("RLIMIT_FSIZE=%d rc=%d" % (L, pr.returncode), [l for l in pr.stdout.decode("latin1").split("\n") if l.startswith("SAVE")])
+        print("files left in", d.path, {k: (len(v) if v is not None else None) for k, v in d.files().items()})
+        for nme in (NAME, NAME + ".old"):
+            if os.path.exists(os.path.join(d.path, nme)):
+                print("load", nme, try_load_(vsim, d, nme))
     elif rp["kind"] == "load-name":
         sess = {"first": 0, "pre": 3, "saves": ["text", "text"]}
         rel, res, rc = run_session(vsim, d, sess, [])
@@ -671,7 +919,8 @@ def replay(rp, vsim, model):
         shutil.copy(os.path.join(d.path, NAME + ".old"), os.path.join(d.path, "backup_copy.colvars.state"))
         print("load a copy named backup_copy.colvars.state:", try_load_(vsim, d, "backup_copy.colvars.state"))
     else:
-        sess = {"first": 0, "pre": 6, "saves": ["text", "binary"]}
+        cfgname = rp.get("config", "base")
+        sess = {"first": 0, "pre": 6, "saves": ["text", "binary"]} if cfgname == "base" else {"first": 0, "pre": 6, "saves": ["text"], "config": cfgname}
         refs, chunking, rel = reference(vsim, d, sess)
         data = refs[0] if rp["format"] == "text" else refs[1]
         if "cut" in rp:
@@ -679,4 +928,4 @@ def replay(rp, vsim, model):
         if "flip" in rp:
             dd = bytearray(data); dd[rp["flip"][0]] ^= (1 << rp["flip"][1]); data = bytes(dd)
         open(os.path.join(d.path, "dmg.colvars.state"), "wb").write(data)
-        print("load:", try_load(vsim, d, "dmg.colvars.state"), "file:", os.path.join(d.path, "dmg.colvars.state"))
+        print("load:", try_load_(vsim, d, "dmg.colvars.state", cfgname), "file:", os.path.join(d.path, "dmg.colvars.state"))
